@@ -40,7 +40,7 @@ def all_plats(m):
 # ---- exact specs (from the property statement)
 def spec_cov(m, H):
     tot = sum(m.values())
-    if tot == 0:
+    if tot == 0 or not set(H):           # undefined: no lines / no platforms
         return NAN
     used = sum(v for k, v in m.items() if k & set(H))
     return Fraction(100 * used, tot)
@@ -59,8 +59,10 @@ def spec_avg(m, H):
 def spec_dist(m, a, b):
     un = sum(v for k, v in m.items() if a in k or b in k)
     xo = sum(v for k, v in m.items() if (a in k) != (b in k))
-    if un == 0:
+    if sum(m.values()) == 0:             # undefined: no lines
         return NAN
+    if un == 0:                          # two platforms that use no line at all have the same (empty) line set
+        return Fraction(0)
     return Fraction(xo, un)
 
 
@@ -115,6 +117,11 @@ class Base:
         # platform names where one is a substring of the other (membership vs substring tests)
         for m in setmaps(["gpu", "gpu-fp64"], [0, 1, 3]):
             yield m, ["gpu", "gpu-fp64"]
+        # tables on which a sum of separately rounded quotients leaves [0, 1] or depends on the order of the entries
+        A, B, C = "A", "B", "C"
+        yield {frozenset([A]): 2, frozenset([B]): 4, frozenset([A, C]): 3, frozenset([B, C]): 1}, [A, B, C]
+        yield {frozenset([B]): 6, frozenset([A, C]): 23, frozenset([B, C]): 1}, [A, B, C]
+        yield {frozenset([A]): 0, frozenset([B]): 0, frozenset([C]): 5}, [A, B, C]
         if tier == "thorough":
             for m in setmaps(PLATS3, [0, 1, 2]):
                 if len(m) <= 5:
@@ -140,7 +147,7 @@ class Coverage(Base):
 
     def check(self, inp):
         m, H = inp["m"], inp["H"]
-        eff = H if H else all_plats(m)
+        eff = H if H is not None else all_plats(m)      # the selection as given; only an absent argument means "all"
         exp = self.spec(m, eff)
         obs = call(self.fn, dict(m), H)
         if not agree(obs, exp):
@@ -181,8 +188,16 @@ class Distance(Base):
         exp = spec_dist(m, a, b)
         obs = call(report.distance, dict(m), a, b)
         if not agree(obs, exp):
-            kl = "distance:union-empty" if exp == NAN else "distance:value"
+            kl = "distance:union-empty" if (exp == NAN or exp == 0) else "distance:value"
             return {"expected": str(exp), "observed": str(obs), "klass": kl}
+        if exp != NAN:
+            if not (0.0 <= obs <= 1.0):
+                return {"expected": "a value in [0, 1] (exact value " + str(exp) + ")", "observed": repr(obs), "klass": "distance:range"}
+            for perm in (list(reversed(list(m.items()))), sorted(m.items(), key=lambda kv: (kv[1], sorted(kv[0])))):
+                o2 = call(report.distance, dict(perm), a, b)
+                if o2 != obs:
+                    return {"expected": f"the same value for every order of the table's entries ({obs!r})", "observed": repr(o2),
+                            "klass": "distance:order-of-entries"}
         return None
 
     def encode(self, inp):
